@@ -45,11 +45,11 @@ pub fn check_case(case: &CodecCase) -> CaseResult {
 
 pub fn run(ctx: &Ctx, rep: &mut Report) {
     hcobs_small::enumerate_enc(ctx, rep, Focus::RoundTrip, ctx.tier.pick(7, 9));
-    let cases = ctx.share(ctx.tier.pick(20_000, 400_000));
+    let cases = ctx.share(ctx.tier.pick(40_000, 400_000));
     engine::drive(ctx, rep, "random", codec::codec_case(false), cases, check_case);
-    let cases = ctx.share(ctx.tier.pick(2_000, 40_000));
+    let cases = ctx.share(ctx.tier.pick(4_000, 40_000));
     engine::drive(ctx, rep, "random-large", codec::codec_case(true), cases, check_case);
-    let cases = ctx.share(ctx.tier.pick(3_000, 40_000));
+    let cases = ctx.share(ctx.tier.pick(6_000, 40_000));
     engine::drive(ctx, rep, "power-of-two-aligned", codec::aligned_case(), cases, check_case);
 }
 
